@@ -23,28 +23,80 @@ theorem poolAt_length (c : Cfg) (st : St) : (poolAt c st).length = c.hosts.lengt
 
 theorem availAt_poolAt (c : Cfg) (st : St) (i : Nat) :
     availAt (poolAt c st) i =
-      match c.hosts[i]? with
-      | some h => !(h.unhealthy || decide (failsAt st i ≥ c.maxFails)) && !isFull c h
+      match hostState c st.over i with
+      | some s => !(s.unhealthy || decide (s.fails + failsAt st i ≥ c.maxFails)) && !fullS c s
       | none => false := by
   unfold availAt poolAt
   rw [List.getElem?_map]
   by_cases hi : i < c.hosts.length
   · rw [List.getElem?_range hi]
-    simp only [Option.map_some, List.getElem?_eq_getElem hi]
-    simp [Host.avail, Host.full, isFull]
+    simp only [Option.map_some]
+    have : ∃ s, hostState c st.over i = some s := by
+      simp [hostState, List.getElem?_eq_getElem hi]
+    obtain ⟨s, hs⟩ := this
+    simp [hs, Host.avail, Host.full, fullS]
   · have h1 : c.hosts[i]? = none := List.getElem?_eq_none (by omega)
     have h2 : (List.range c.hosts.length)[i]? = none := List.getElem?_eq_none (by simp; omega)
-    simp [h1, h2]
+    simp [hostState, h1, h2]
 
-theorem poolAt_sized (c : Cfg) (st : St) (hs : sized c = true) :
+/-! ### events -/
+
+/-- what the events of one attempt leave of the state of host j: what it was, or the state of an event on j -/
+theorem applyEvents_cases (evs : List Event) (n : Nat) (over : Nat → Option HostState) (j : Nat) :
+    applyEvents evs n over j = over j ∨ ∃ e ∈ evs, e.host = j ∧ applyEvents evs n over j = some e.state := by
+  induction evs generalizing over with
+  | nil => left; rfl
+  | cons e es ih =>
+    unfold applyEvents
+    simp only [List.foldl_cons]
+    rcases ih (if e.attempt = n then (fun j => if j = e.host then some e.state else over j) else over) with h | ⟨e', he', hj, h⟩
+    · unfold applyEvents at h
+      rw [h]
+      by_cases hn : e.attempt = n
+      · simp only [hn, if_true]
+        by_cases hj : j = e.host
+        · right; exact ⟨e, by simp, hj.symm, by simp [hj]⟩
+        · left; simp [hj]
+      · left; simp [hn]
+    · right; exact ⟨e', by simp [he'], hj, h⟩
+
+/-- every state an event has given a host is the state of an event on that host -/
+def OverOK (c : Cfg) (over : Nat → Option HostState) : Prop :=
+  ∀ i s, over i = some s → ∃ e ∈ c.events, e.host = i ∧ e.state = s
+
+theorem overOK_init (c : Cfg) : OverOK c (fun _ => none) := by
+  intro i s h; cases h
+
+theorem overOK_apply (c : Cfg) (n : Nat) (over : Nat → Option HostState) (h : OverOK c over) :
+    OverOK c (applyEvents c.events n over) := by
+  intro i s hs
+  rcases applyEvents_cases c.events n over i with h1 | ⟨e, he, hi, h1⟩
+  · rw [h1] at hs; exact h i s hs
+  · rw [h1] at hs; cases hs; exact ⟨e, he, hi, rfl⟩
+
+theorem over_untouched (c : Cfg) (over : Nat → Option HostState) (h : OverOK c over) (i : Nat)
+    (hu : untouched c i = true) : over i = none := by
+  cases ho : over i with
+  | none => rfl
+  | some s =>
+    obtain ⟨e, he, hi, _⟩ := h i s ho
+    have := (List.all_eq_true.mp hu) e he
+    simp [hi] at this
+
+theorem poolAt_sized (c : Cfg) (st : St) (hs : sized c = true) (hov : OverOK c st.over) :
     (poolAt c st).length ≤ 2147483648 ∧ ∀ x ∈ poolAt c st, x.conns ≤ maxInt64 := by
   simp only [sized, Bool.and_eq_true, decide_eq_true_eq, List.all_eq_true] at hs
-  refine ⟨by rw [poolAt_length]; exact hs.1, ?_⟩
+  refine ⟨by rw [poolAt_length]; exact hs.1.1, ?_⟩
   intro x hx
   simp only [poolAt, List.mem_map, List.mem_range] at hx
   obtain ⟨i, hi, rfl⟩ := hx
-  rw [List.getElem?_eq_getElem hi]
-  exact hs.2 _ (List.getElem_mem hi)
+  simp only [hostState, List.getElem?_eq_getElem hi]
+  cases ho : st.over i with
+  | none => exact hs.1.2 _ (List.getElem_mem hi)
+  | some s =>
+    obtain ⟨e, he, _, hes⟩ := hov i s ho
+    have := hs.2 e he
+    simpa [hes] using this
 
 theorem any_avail_of_availAt {p : Pool} {i : Nat} (h : availAt p i = true) : p.any Host.avail = true := by
   unfold availAt at h
@@ -140,6 +192,7 @@ structure Inv (c : Cfg) (st : St) : Prop where
   unexpired : ∀ i e, e ∈ st.timers i → e ≥ c.failTimeout
   goodClean : ∀ i h, c.hosts[i]? = some h → good c h = true → st.timers i = []
   budget : st.now + slack c st * c.interval < c.tryDuration
+  overOK : OverOK c st.over
 
 theorem failsAt_eq_lenT (c : Cfg) (st : St) (hinv : Inv c st) (hF : c.failTimeout ≥ c.tryDuration) (i : Nat) :
     failsAt st i = lenT st i := by
@@ -156,6 +209,19 @@ theorem mem_getElem? {α} {l : List α} {x : α} (h : x ∈ l) : ∃ i : Nat, l[
   obtain ⟨i, hi, hx⟩ := List.mem_iff_getElem.mp h
   exact ⟨i, by rw [List.getElem?_eq_getElem hi, hx]⟩
 
+/-- recording one more failure of a bad backend lowers the potential by one -/
+theorem slack_bump (c : Cfg) (st st' : St) (i : Nat) (h : HostCfg) (hhi : c.hosts[i]? = some h)
+    (hbad : good c h = false) (hlt : lenT st i < c.maxFails)
+    (ht : st'.timers = fun j => if j = i then (st.now + c.failTimeout) :: st.timers j else st.timers j) :
+    slack c st' + 1 = slack c st := by
+  unfold slack
+  have : lenT st' = fun j => if j = i then lenT st j + 1 else lenT st j := by
+    funext j
+    simp only [lenT, ht]
+    by_cases hj : j = i <;> simp [hj]
+  rw [this]
+  exact slackL_bump c (lenT st) i h hbad hlt c.hosts 0 (Nat.zero_le _) (by simpa using hhi)
+
 /-- One iteration from a state satisfying the invariant either succeeds or records one more
 failure of a bad backend, keeps the invariant and lowers the potential by one. -/
 theorem step_inv (hs : SelSound) (hc : SelComplete) (c : Cfg) (hm : mustSucceed c = true)
@@ -164,18 +230,25 @@ theorem step_inv (hs : SelSound) (hc : SelComplete) (c : Cfg) (hm : mustSucceed 
     (∃ st' acc', step c st acc = .next st' acc' ∧ Inv c st' ∧ slack c st' + 1 = slack c st) := by
   simp only [mustSucceed, retriesEnabled, budget, Bool.and_eq_true, decide_eq_true_eq] at hm
   obtain ⟨⟨⟨⟨⟨_, hFpos⟩, hgood⟩, hof⟩, ⟨⟨⟨hI, hM⟩, _⟩, hF⟩⟩, hsz⟩ := hm
-  -- a healthy backend is available
-  obtain ⟨hg, hgmem, hgg⟩ := List.any_eq_true.mp hgood
-  obtain ⟨g, hgi⟩ := mem_getElem? hgmem
+  -- a healthy backend is available: no event touches it, it has no failures
+  obtain ⟨g, _, hgs⟩ := List.any_eq_true.mp hgood
   have hfa : ∀ i, failsAt st i = lenT st i := failsAt_eq_lenT c st hinv hF
   have havg : availAt (poolAt c st) g = true := by
-    rw [availAt_poolAt, hgi]
-    have h0 : failsAt st g = 0 := by rw [hfa, lenT, hinv.goodClean g hg hgi hgg]; rfl
-    simp only [good, Bool.and_eq_true, Bool.not_eq_true'] at hgg
-    have : ¬ (0 ≥ c.maxFails) := by omega
-    simp [h0, hgg.1.1, hgg.1.2, this]
+    rw [availAt_poolAt]
+    unfold stableGood at hgs
+    cases hgi : c.hosts[g]? with
+    | none => rw [hgi] at hgs; cases hgs
+    | some hg =>
+      rw [hgi] at hgs
+      simp only [Bool.and_eq_true] at hgs
+      obtain ⟨hgg, hgu⟩ := hgs
+      have hnone : st.over g = none := over_untouched c st.over hinv.overOK g hgu
+      have h0 : failsAt st g = 0 := by rw [hfa, lenT, hinv.goodClean g hg hgi hgg]; rfl
+      simp only [good, isFull, Bool.and_eq_true, Bool.not_eq_true', decide_eq_true_eq] at hgg
+      have hnf : ¬ (hg.fails ≥ c.maxFails) := by omega
+      simp [hostState, hgi, hnone, HostCfg.state, h0, hgg.1.1.1, hnf, fullS, hgg.1.1.2]
   have hany := any_avail_of_availAt havg
-  have hsome := hc c.kind (poolAt c st) st.robin c.hash (c.rands st.selects) (poolAt_sized c st hsz) hany
+  have hsome := hc c.kind (poolAt c st) st.robin c.hash (c.rands st.selects) (poolAt_sized c st hsz hinv.overOK) hany
   have hsound := hs c.kind (poolAt c st) st.robin c.hash (c.rands st.selects)
   cases hsel : (upstreamSelect c.kind (poolAt c st) st.robin c.hash (c.rands st.selects)).1 with
   | none => rw [hsel] at hsome; simp at hsome
@@ -184,10 +257,9 @@ theorem step_inv (hs : SelSound) (hc : SelComplete) (c : Cfg) (hm : mustSucceed 
     simp only [sound] at hsound
     rw [availAt_poolAt] at hsound
     cases hhi : c.hosts[i]? with
-    | none => rw [hhi] at hsound; simp at hsound
+    | none => simp [hostState, hhi] at hsound
     | some h =>
-      rw [hhi] at hsound
-      simp only [Bool.and_eq_true, Bool.not_eq_true', Bool.or_eq_false_iff, decide_eq_false_iff_not] at hsound
+      simp only [hostState, hhi, Bool.and_eq_true, Bool.not_eq_true', Bool.or_eq_false_iff, decide_eq_false_iff_not] at hsound
       have hlt : lenT st i < c.maxFails := by have := hfa i; omega
       have hoc : okOrFail (outcomeAt h.script (st.calls i)) = true :=
         outcomeAt_okOrFail _ _ ((List.all_eq_true.mp hof) h (List.mem_of_getElem? hhi))
@@ -209,26 +281,17 @@ theorem step_inv (hs : SelSound) (hc : SelComplete) (c : Cfg) (hm : mustSucceed 
         have hnow : ¬ (st.now ≥ c.tryDuration) := by have := hinv.budget; omega
         have hFp : c.failTimeout > 0 := hFpos
         simp only [hFp, if_true, keepRetrying, hnow, if_false]
-        have hsl : slack c { st with
+        refine ⟨_, _, rfl, ?_⟩
+        have hsl := slack_bump c st (i := i) (h := h) (hhi := hhi) (hbad := hbad) (hlt := hlt)
+          (st' := { st with
             now := st.now + c.interval, robin := (upstreamSelect c.kind (poolAt c st) st.robin c.hash (c.rands st.selects)).2,
             selects := st.selects + 1,
             calls := fun j => if j = i then st.calls j + 1 else st.calls j,
             bodyUnread := st.bodyUnread && !readsBody (.fail r),
-            timers := fun j => if j = i then (st.now + c.failTimeout) :: st.timers j else st.timers j } + 1 = slack c st := by
-          unfold slack
-          have : (lenT { st with
-            now := st.now + c.interval, robin := (upstreamSelect c.kind (poolAt c st) st.robin c.hash (c.rands st.selects)).2,
-            selects := st.selects + 1,
-            calls := fun j => if j = i then st.calls j + 1 else st.calls j,
-            bodyUnread := st.bodyUnread && !readsBody (.fail r),
-            timers := fun j => if j = i then (st.now + c.failTimeout) :: st.timers j else st.timers j })
-              = fun j => if j = i then lenT st j + 1 else lenT st j := by
-            funext j
-            simp only [lenT]
-            by_cases hj : j = i <;> simp [hj]
-          rw [this]
-          exact slackL_bump c (lenT st) i h hbad hlt c.hosts 0 (Nat.zero_le _) (by simpa using hhi)
-        refine ⟨_, _, rfl, ⟨?_, ?_, ?_⟩, hsl⟩
+            attempts := st.attempts + 1,
+            over := applyEvents c.events st.attempts st.over,
+            timers := fun j => if j = i then (st.now + c.failTimeout) :: st.timers j else st.timers j }) rfl
+        refine ⟨⟨?_, ?_, ?_, ?_⟩, hsl⟩
         · intro j e he
           simp only at he
           by_cases hj : j = i
@@ -247,16 +310,11 @@ theorem step_inv (hs : SelSound) (hc : SelComplete) (c : Cfg) (hm : mustSucceed 
           simp only [hji, if_false]
           exact hinv.goodClean j hj hjget hjgood
         · have hb := hinv.budget
-          have : slack c st = slack c { st with
-            now := st.now + c.interval, robin := (upstreamSelect c.kind (poolAt c st) st.robin c.hash (c.rands st.selects)).2,
-            selects := st.selects + 1,
-            calls := fun j => if j = i then st.calls j + 1 else st.calls j,
-            bodyUnread := st.bodyUnread && !readsBody (.fail r),
-            timers := fun j => if j = i then (st.now + c.failTimeout) :: st.timers j else st.timers j } + 1 := hsl.symm
-          rw [this, Nat.add_mul] at hb
+          rw [← hsl, Nat.add_mul] at hb
           simp only [Nat.one_mul] at hb
           show st.now + c.interval + _ * c.interval < c.tryDuration
           omega
+        · exact overOK_apply c _ _ hinv.overOK
 
 theorem loop_success (hs : SelSound) (hc : SelComplete) (c : Cfg) (hm : mustSucceed c = true) :
     ∀ (fuel : Nat) (st : St) (acc : List Attempt), Inv c st → slack c st < fuel → (loop c fuel st acc).1 = .success := by
@@ -279,10 +337,11 @@ theorem slack_init (c : Cfg) (robin : Nat) :
 
 theorem inv_init (c : Cfg) (robin : Nat) (hm : mustSucceed c = true) : Inv c { St.init with robin := robin } := by
   simp only [mustSucceed, budget, Bool.and_eq_true, decide_eq_true_eq] at hm
-  refine ⟨?_, ?_, ?_⟩
+  refine ⟨?_, ?_, ?_, ?_⟩
   · intro i e he; simp [St.init] at he
   · intro i h _ _; rfl
   · rw [slack_init]; simpa [St.init] using hm.1.2.1.2
+  · exact overOK_init c
 
 theorem serve_success (hs : SelSound) (hc : SelComplete) (c : Cfg) (robin : Nat) (hm : mustSucceed c = true) :
     (serve c robin).1 = .success := by
@@ -398,7 +457,9 @@ theorem loop_bodies_single (c : Cfg) (hd : c.tryDuration = 0) (fuel : Nat) (st :
 
 /-! ### giving up -/
 
-theorem step_none_available (hs : SelSound) (c : Cfg) (hn : neverAvailable c = true) (st : St) (acc : List Attempt) :
+/-- nobody in rotation on arrival and no event so far: `Select` finds nobody -/
+theorem step_none_available (hs : SelSound) (c : Cfg) (hn : neverAvailable c = true) (st : St) (acc : List Attempt)
+    (hov : ∀ i, st.over i = none) :
     step c st acc = keepRetrying c { st with
       robin := (upstreamSelect c.kind (poolAt c st) st.robin c.hash (c.rands st.selects)).2,
       selects := st.selects + 1 } acc := by
@@ -412,25 +473,27 @@ theorem step_none_available (hs : SelSound) (c : Cfg) (hn : neverAvailable c = t
     simp only [sound] at hsound
     rw [availAt_poolAt] at hsound
     cases hhi : c.hosts[i]? with
-    | none => rw [hhi] at hsound; simp at hsound
+    | none => simp [hostState, hhi] at hsound
     | some h =>
-      rw [hhi] at hsound
-      have := (List.all_eq_true.mp hn) h (List.mem_of_getElem? hhi)
-      simp only [Bool.and_eq_true, Bool.not_eq_true', Bool.or_eq_false_iff] at hsound
-      rcases Bool.or_eq_true_iff.mp this with hu | hf
-      · rw [hu] at hsound; exact absurd hsound.1.1 (by simp)
-      · rw [hf] at hsound; exact absurd hsound.2 (by simp)
+      have hup := (List.all_eq_true.mp hn) h (List.mem_of_getElem? hhi)
+      simp only [hostState, hhi, hov i, Option.getD_none, HostCfg.state, Bool.and_eq_true, Bool.not_eq_true',
+        Bool.or_eq_false_iff, decide_eq_false_iff_not] at hsound
+      have hfull : (decide (c.maxConns > 0) && decide (h.conns ≥ c.maxConns)) = false := hsound.2
+      have hnf : ¬ (h.fails + failsAt st i ≥ c.maxFails) := hsound.1.2
+      have hlt : h.fails < c.maxFails := by omega
+      simp only [upS, fullS, HostCfg.state, hsound.1.1, hfull, hlt, decide_true, Bool.not_false, Bool.and_self,
+        Bool.not_true, Bool.false_eq_true] at hup
 
 theorem loop_gives_up (hs : SelSound) (c : Cfg) (hn : neverAvailable c = true) (hI : c.interval ≥ 1) :
-    ∀ (fuel : Nat) (st : St), fuel ≥ 1 → fuel + st.now ≥ c.tryDuration + 1 →
+    ∀ (fuel : Nat) (st : St), (∀ i, st.over i = none) → fuel ≥ 1 → fuel + st.now ≥ c.tryDuration + 1 →
       loop c fuel st [] = (.badGateway, []) := by
   intro fuel
   induction fuel with
-  | zero => intro st h; omega
+  | zero => intro st _ h; omega
   | succ fuel ih =>
-    intro st _ hsum
+    intro st hov _ hsum
     unfold loop
-    rw [step_none_available hs c hn st []]
+    rw [step_none_available hs c hn st [] hov]
     rcases keepRetrying_cases c { st with
       robin := (upstreamSelect c.kind (poolAt c st) st.robin c.hash (c.rands st.selects)).2,
       selects := st.selects + 1 } [] with hk | ⟨hlt, hk⟩
@@ -438,6 +501,7 @@ theorem loop_gives_up (hs : SelSound) (c : Cfg) (hn : neverAvailable c = true) (
     · rw [hk]
       simp only at hlt
       apply ih
+      · exact hov
       · omega
       · simp only; omega
 
@@ -445,6 +509,7 @@ theorem serve_gives_up (hs : SelSound) (c : Cfg) (robin : Nat) (hn : neverAvaila
     serve c robin = (.badGateway, []) := by
   unfold serve
   apply loop_gives_up hs c hn hI
+  · intro i; rfl
   · unfold fuelFor; omega
   · unfold fuelFor; simp [St.init]
 
